@@ -191,8 +191,8 @@ def shard(ctx):
                 ctx.fail(dict(text=text), res[0], res[1])
         return one
 
-    for kind, q, t in (("alphabet", 24000, 800000), ("mixed", 8000, 300000), ("unicode", 4000, 100000), ("mutated", 8000, 400000),
-                       ("deep", 1600, 40000), ("wellformed_cut", 16000, 600000), ("unclosed_deep", 800, 8000)):
+    for kind, q, t in (("alphabet", 14000, 800000), ("mixed", 5000, 300000), ("unicode", 3000, 100000), ("mutated", 5000, 400000),
+                       ("deep", 1000, 40000), ("wellformed_cut", 9000, 600000), ("unclosed_deep", 500, 8000)):
         ctx.hyp(strs[kind], runner(kind), ctx.per_shard(q, t), kind)
 
 
